@@ -374,7 +374,7 @@ func genC01(env *core.Env, emit func(core.Case)) {
 			nKeys:      1 + r.IntN(4),
 			collide:    r.IntN(2) == 0,
 			aead:       uint16(1 + r.IntN(3)),
-			stale:      r.IntN(5) == 0,
+			stale:      r.IntN(4) == 0,
 		}
 		nl := []int{3, 5, 63, 200, 253}[r.IntN(5)]
 		p.innerName = dnsName(r.IntN, nl)
@@ -423,7 +423,8 @@ func genC01(env *core.Env, emit func(core.Case)) {
 		for _, k := range kms {
 			echKeysTLS = append(echKeysTLS, tls.EncryptedClientHelloKey{Config: k.Config, PrivateKey: k.PrivBytes, SendAsRetry: true})
 		}
-		publicCfg := &tls.Config{Certificates: []tls.Certificate{publicCert}, EncryptedClientHelloKeys: echKeysTLS, MinVersion: tls.VersionTLS13}
+		publicCfg := &tls.Config{Certificates: []tls.Certificate{publicCert}, EncryptedClientHelloKeys: echKeysTLS, MinVersion: tls.VersionTLS13,
+			CurvePreferences: curveList(p.curves, true)} // the public-name server may answer with a HelloRetryRequest too
 		clientCfg := &tls.Config{ServerName: p.innerName, RootCAs: pk.pool, EncryptedClientHelloConfigList: list, NextProtos: p.alpn, CurvePreferences: curveList(p.curves, false), MinVersion: tls.VersionTLS13}
 		if p.clientCert > 0 {
 			clientCfg.Certificates = []tls.Certificate{pk.leaf(p.clientCert, true, "client")}
